@@ -4,14 +4,14 @@ QUICK_RUNS = 8000
 THOROUGH_BUDGET_S = 600
 RULE = (
     "seeded histories of <=12 update_dm / update_period calls on a FoldedData cube (shape <= 6x6x32, all values distinct so "
-    "every rotation is attributable) over a small alphabet of targets (folding value, +-delta, repeat-last, return-to-fold) "
+    "every rotation is attributable; held C-contiguous, as a transposed view, in Fortran order or as a slice of a larger array, and always compared with a C-contiguous twin given the same history) over a small alphabet of targets (folding value, +-delta, repeat-last, return-to-fold) "
     "and random targets; after every call: reported dm/period == last set, every profile is a rotation of the original, a "
     "repeated call changes nothing, single-parameter histories equal a FRESH cube given the final value in one call, and "
     "returning all parameters to the folding values restores the cube bit-for-bit. Pure in-memory state machine: no fault "
     "applies and none is injected. Non-trivial = history of >= 2 calls with at least one non-zero rotation; distinct = "
     "distinct event digests among those."
 )
-PROBES = ["repeat-last", "return-to-fold", "history>=4", "mixed-dm-period", "dm-only", "period-only", "nonzero-rotation", "one-step-compared"]
+PROBES = ["repeat-last", "return-to-fold", "history>=4", "mixed-dm-period", "dm-only", "period-only", "nonzero-rotation", "one-step-compared", "non-contiguous-cube"]
 COMPONENTS = {
     "real": ["sigpyproc.foldedcube.FoldedData.update_dm/update_period/_get_dmdelays/_get_pdelays", "params.compute_dmdelays"],
     "simulated": ["the call history (targets, order, repeats)"],
